@@ -21,6 +21,9 @@ pub struct ServerProfile {
     pub activations: Vec<DemandActive>,
     /// true: answer the finalization sequence and run the reactivation rounds without being told
     pub auto: bool,
+    /// frames sent right after the last activation completed (auto mode): scripted post-activation traffic
+    #[serde(default)]
+    pub post_activation: Vec<Vec<u8>>,
 }
 
 impl ServerProfile {
@@ -47,6 +50,7 @@ impl ServerProfile {
             license: License::ValidClient { blob_type: 4, blob: vec![] },
             activations: vec![DemandActive { share_id, source: b"RDP\0".to_vec(), caps: wire::sample_server_caps(), session_id: 0 }],
             auto: true,
+            post_activation: Vec::new(),
         }
     }
 }
@@ -493,6 +497,11 @@ impl Server {
                                     self.phase = Phase::Activation(0);
                                 } else {
                                     self.phase = Phase::Active;
+                                    for f in self.profile.post_activation.clone() {
+                                        let mut b = Built::new();
+                                        b.blob("scripted", &f);
+                                        self.emit(out, "scripted", b);
+                                    }
                                 }
                             }
                         }
